@@ -220,7 +220,7 @@ def judgeE2E (id : String) (hostCfg : Option Bytes) (aks secrets : List Bytes) (
         let implStr := s!"{access}/{code}"
         match preAuth with
         | some c =>
-          if access = "-" && backend = "-" && code = c then agree id s!"pre-auth-{c}:{tag}"
+          if access = "-" && backend = "-" && code = c then agree id s!"pre-auth-{c}"
           else disagree id s!"pre-auth:{c}" implStr
         | none =>
         match mv with
